@@ -608,6 +608,53 @@ impl History {
     }
 }
 
+impl History {
+    /// Medium-sized dense instances: 13-17 statements whose conditions are deep and xor/iff-heavy,
+    /// so that a single stability check builds hundreds of nodes, and a short history of
+    /// searches (every answer is a list of two-valued interpretations, compared with the fresh
+    /// twin's). Reaches what neither the tabulated (<= 5 statements) nor the sparse large
+    /// histories do: thousands of scratch nodes and memo entries between two answers.
+    fn generate_medium_dense(&self, rng: &mut Rng) -> HistCase {
+        use refsem::F;
+        fn dense(rng: &mut Rng, n: usize, depth: u32) -> F {
+            if depth == 0 || rng.chance(1, 6) {
+                return F::Atom(rng.below(n as u64) as usize);
+            }
+            let a = Box::new(dense(rng, n, depth - 1));
+            if rng.chance(1, 6) {
+                return F::Not(a);
+            }
+            let b = Box::new(dense(rng, n, depth - 1));
+            match rng.below(5) {
+                0 => F::And(a, b),
+                1 => F::Or(a, b),
+                2 | 3 => F::Xor(a, b),
+                _ => F::Iff(a, b),
+            }
+        }
+        let n = rng.range(13, 16) as usize;
+        let names: Vec<String> = (0..n).map(|i| format!("s{i}")).collect();
+        let acs: Vec<F> = (0..n).map(|_| { let d = rng.range(4, 5) as u32; dense(rng, n, d) }).collect();
+        let spec = AdfSpec { names, acs, ac_order: (0..n).collect() };
+        let len = rng.range(3, 6) as usize;
+        let steps = (0..len)
+            .map(|_| {
+                let heu = match rng.below(3) {
+                    0 => HeuK::Simple,
+                    1 => HeuK::MinPaths,
+                    _ => HeuK::MaxVarImp,
+                };
+                match rng.below(8) {
+                    0 => Step::StableCountA,
+                    1 => Step::TwoValNogood(HeuK::Simple),
+                    _ => Step::Nogood(heu),
+                }
+            })
+            .collect();
+        HistCase { spec, build: Build::Native, steps }
+    }
+}
+
 impl Scenario for History {
     type Case = HistCase;
     fn name(&self) -> &'static str {
@@ -618,7 +665,7 @@ impl Scenario for History {
     }
     fn rule(&self) -> String {
         match self.property {
-            "C11" => "case = ADF (1-5 statements; native / bridged / bridged+pre-grounded) + history of 1-25 public API calls (all semantics, nogood search with every built-in heuristic incl. Rand under drawn seeds, counts, facets, paths/depth/dependencies/impacts on issued handles, extra formulas built on the shared diagram). Simulator-owned: the order of calls on one object, the entropy seam (Adf::seed), hash-iteration order (two independently built objects per plan). Non-trivial: the history has >= 2 calls of which >= 1 grows the node table or fills a memo table before a later answer is taken. Distinct = distinct case hashes (the history is the schedule)".into(),
+            "C11" => "case = ADF (1-5 statements; native / bridged / bridged+pre-grounded; rarely 66-130 mostly-fact statements or 13-16 statements with deep xor/iff-heavy conditions and a history of searches) + history of 1-25 public API calls (all semantics, nogood search with every built-in heuristic incl. Rand under drawn seeds, counts, facets, paths/depth/dependencies/impacts on issued handles, extra formulas built on the shared diagram). Simulator-owned: the order of calls on one object, the entropy seam (Adf::seed), hash-iteration order (two independently built objects per plan). Non-trivial: the history has >= 2 calls of which >= 1 grows the node table or fills a memo table before a later answer is taken. Distinct = distinct case hashes (the history is the schedule)".into(),
             "C14" => "case = ADF + history as for C11 with RestartJson (serde_json export -> drop -> import -> fix_import) and RestartDb (node list + ordering + roots -> Bdd::from -> Adf::from) drawn at any point, any number of times. Non-trivial: at least one restart fired with at least one answer taken afterwards. Distinct = distinct case hashes".into(),
             _ => "case = as C14 (restarts at arbitrary points, bridged starts); verdict after every step: table reduced, ordered, duplicate-free, constants first, distinct handles denote distinct functions (table walker), top/bottom handle iff valid/unsatisfiable. Non-trivial: a restart or bridge import happened and the table grew afterwards. Distinct = distinct case hashes".into(),
         }
@@ -630,6 +677,14 @@ impl Scenario for History {
         }
         if self.property == "C11" && rng.chance(1, if thorough { 300 } else { 500 }) {
             return self.generate_sparse_large(rng);
+        }
+        if self.property == "C11" {
+            // decided on a fork of the generator, so that every other case of the batch is what
+            // it was before this family existed; the family is expensive (seconds per case)
+            let mut fork = Rng::new(simcore::rng::mix(rng.clone().next_u64(), 0xd3a5e));
+            if std::env::var("HIST_ONLY_DENSE").is_ok() || fork.chance(1, if thorough { 1500 } else { 6000 }) {
+                return self.generate_medium_dense(&mut fork);
+            }
         }
         let n = rng.range(1, 5) as usize;
         let depth = rng.range(1, 3) as u32;
